@@ -240,6 +240,12 @@ func lockRules(c *Ctx, owners map[string]bool, floors map[string]int) {
 		if e.What == "async" {
 			continue // reported above
 		}
+		if e.What == "premise" {
+			if owners == nil || owners[e.F.Root().Name] {
+				R.Fail("L1", e.F.Root().Name+"/fast-path", p.Position(e.Pos), e.Detail)
+			}
+			continue
+		}
 		if owners != nil && !ownersMention(owners, e.Detail) {
 			continue
 		}
